@@ -1118,6 +1118,7 @@ def prog_diagnostics_api(E):
 
 
 PROGRAMS = {n[len("prog_"):]: f for n, f in sorted(globals().items()) if n.startswith("prog_") and callable(f)}
+from checks import optprogs6; PROGRAMS.update(optprogs6.PROGRAMS)   # round 5: values that are futures / generators (own option sets: c20.optprog6_cases)
 
 
 # ---------------------------------------------------------------------------------------------------------------------
